@@ -102,6 +102,7 @@ type cfg struct {
 	thr       bool // low value threshold, value sizes around it
 	vlogpct   bool // dynamic threshold (VLogPercentile)
 	lsmonly   bool // value threshold at the transaction size limit: everything inline
+	thrup     bool // value threshold 32, raised to 512 by the first re-open (like thr otherwise)
 	compress  options.CompressionType
 	levels    int
 	sync      bool
@@ -129,6 +130,8 @@ func parseConfig(name string, seed int64) cfg {
 			c.vlogpct = true
 		case "lsmonly":
 			c.lsmonly = true
+		case "thrup":
+			c.thr, c.thrup = true, true
 		case "zstd":
 			c.compress = options.ZSTD
 		case "snappy":
@@ -159,6 +162,7 @@ type runner struct {
 	mnext   uint64 // the model's nextTs
 	nrot    int    // master-key rotations performed by this process
 	mute    bool   // observations with several allowed outcomes are left out of the digest
+	opened  int    // successful read-write opens of the current case
 	now     uint64
 	prefetc bool
 	psize   int
@@ -204,6 +208,9 @@ func (r *runner) opts() badger.Options {
 		o.ValueThreshold = 32
 		o.ValueLogMaxEntries = 3
 	}
+	if r.c.thrup && r.opened > 0 {
+		o.ValueThreshold = 512 // the threshold rose after the first values were written
+	}
 	if r.c.vlogpct {
 		o.VLogPercentile = 0.5
 	}
@@ -230,6 +237,9 @@ func (r *runner) openWith(o badger.Options) (*badger.DB, error) {
 func (r *runner) open() error {
 	var err error
 	r.db, err = r.openWith(r.opts())
+	if err == nil {
+		r.opened++
+	}
 	return err
 }
 
@@ -418,6 +428,7 @@ func (r *runner) runCase(steps []Step) (at int, m *mismatch) {
 	r.mrts = map[int]uint64{}
 	r.tsMap = map[uint64]uint64{}
 	r.offset = 0
+	r.opened = 0
 	r.mnext = 1
 	r.now = 1
 	r.envDone = map[string]int{}
